@@ -484,7 +484,8 @@ type obs struct {
 	reg, rpc, sub          map[string]int
 	seekok, held           map[string]bool
 	gl, ge, gp, gw         map[string]int
-	gu, gup, asleep        int
+	gu, gup, guSleepy      int
+	geSleepy               map[string]int
 	classes                []string
 }
 
@@ -492,7 +493,7 @@ func (r *runner) snapshot() *obs {
 	o := &obs{get: map[string]string{}, list: map[string]string{}, stored: map[string]string{}, mem: map[string]string{},
 		nck: map[string]int{}, ent: map[string]int{"a1": -1, "a2": -1}, quit: map[string]bool{},
 		reg: map[string]int{}, rpc: map[string]int{}, sub: map[string]int{}, seekok: map[string]bool{}, held: map[string]bool{},
-		gl: map[string]int{}, ge: map[string]int{}, gp: map[string]int{}, gw: map[string]int{}}
+		gl: map[string]int{}, ge: map[string]int{}, gp: map[string]int{}, gw: map[string]int{}, geSleepy: map[string]int{}}
 	env := r.env
 	// goroutines first (they are what is still winding down)
 	for _, g := range lifeenv.Census() {
@@ -500,9 +501,7 @@ func (r *runner) snapshot() *obs {
 			continue
 		}
 		o.classes = append(o.classes, fmt.Sprintf("%s:%s:%d", g.Task, g.Class, g.Count))
-		if g.Poller && g.Asleep {
-			o.asleep += g.Count // a poller inside time.Sleep cannot go away during the wait
-		}
+		sleepy := g.Poller && g.Asleep // a poller inside time.Sleep cannot go away during the wait
 		if g.Task != "t1" && g.Task != "t2" { // started by ReloadTask (label "reload")
 			if g.Waiter {
 				continue
@@ -511,10 +510,16 @@ func (r *runner) snapshot() *obs {
 			if g.Poller {
 				o.gup += g.Count
 			}
+			if sleepy {
+				o.guSleepy += g.Count
+			}
 			continue
 		}
 		if g.Poller {
 			o.gp[g.Task] += g.Count
+		}
+		if sleepy {
+			o.geSleepy[g.Task] += g.Count
 		}
 		if g.Waiter {
 			o.gw[g.Task] += g.Count
@@ -612,18 +617,18 @@ func (r *runner) residue(o *obs) string {
 			res = append(res, fmt.Sprintf("%s left %d %d %d %d", t, o.reg[t], o.rpc[t], o.sub[t], o.gl[t]))
 		}
 	}
+	// (pollers that are inside time.Sleep stay at least until their timer fires: not worth waiting for)
 	left := 0
 	for _, t := range tasks {
 		if !running[r.tgt(t)] {
-			left += o.ge[t]
+			left += o.ge[t] - o.geSleepy[t]
 		}
 	}
 	if len(running) == 0 {
-		left += o.gu
+		left += o.gu - o.guSleepy
 	}
-	// pollers that are inside time.Sleep stay at least until their timer fires: not worth waiting for
-	if left-o.asleep > 0 {
-		res = append(res, fmt.Sprintf("entity goroutines %d", left-o.asleep))
+	if left > 0 {
+		res = append(res, fmt.Sprintf("entity goroutines %d", left))
 	}
 	return strings.Join(res, "; ")
 }
